@@ -52,6 +52,7 @@ THEOREMS = [
     "Typedpy.C18.points_here",
     "Typedpy.C18.locate_sound",
     "Typedpy.C18.locateZip_sound",
+    "Typedpy.C18.locateAll_sound",
     "Typedpy.C18.sites_point_at_rejections",
     "Typedpy.C18.locate_sound_example",
     "Typedpy.C18.firstBad_min",
@@ -90,6 +91,7 @@ THEOREMS = [
     "Typedpy.C18.two_phase_deep_example",
     "Typedpy.C18.fixed_nested_structure_examples",
     "Typedpy.C18.p1SitesD_tops",
+    "Typedpy.C18.wrapper_path_examples",
 ]
 RULE = ("flat classes (1..5 fields: Integer/Number/Float incl. sign variants, String, Boolean, Enum, and Array/Deque/"
         "Set/Tuple/Map over them) from the type-directed declaration generator; per class a valid argument set, then "
